@@ -973,7 +973,7 @@ def depth_class(d, cap):
 
 def deep_inputs(rng, quick):
     """[(family, lines)]: family = deep:<construct>:<position>:<host>:<depth class>:d<depth>.
-    thorough: the full product positions x hosts x depths.  quick: the full product positions x hosts at the depths
+    thorough: the full product positions x hosts x depths (depth 3000 of the inline conditional in 6 hosts per position).  quick: the full product positions x hosts at the depths
     around the cap; the small and the far-above depths on drawn hosts, arranged so that every position meets the
     far-above depths in several hosts and every host meets them through several positions (depth 3000 of the
     inline conditional costs about a second per probe and is left to the thorough tier; quick goes to 600 and 1500)."""
@@ -983,10 +983,11 @@ def deep_inputs(rng, quick):
     for pi, pos in enumerate(INLINE_POSITIONS):
         for hi, host in enumerate(hosts):
             mk = INLINE_HOSTS[host]
+            slot = (hi - 6 * pi) % len(hosts)              # 0..17, a different rotation of the hosts per position
             if not quick:
-                depths = INLINE_DEPTHS
+                # depth 3000 costs about a second per probe: 6 hosts per position (every host through 3 positions)
+                depths = [d for d in INLINE_DEPTHS if d < 3000 or slot < 6]
             else:
-                slot = (hi - 6 * pi) % len(hosts)          # 0..17, a different rotation of the hosts per position
                 depths = [50, 51] + ([2, 49, 60] if slot % 3 == 0 else []) + ([600] if slot < 2 else []) + \
                     ([1500] if slot == 2 and pi % 4 == 0 else [])
             for d in depths:
@@ -1122,7 +1123,7 @@ def call_matrix(rng, quick):
                 lines = [l for part in parts for l in part + [""]]
                 if parts[0] is not caller:
                     lines = ["@start Start"] + lines
-                cmp_ = (not quick) or site == drawn or rng.random() < 0.08
+                cmp_ = (not quick) or site == drawn or rng.random() < 0.03
                 out.append((f"call-shape:{cfg}:{shape.split(':')[0] if shape.startswith('malformed') else shape}:{site}", lines, cmp_))
     for name, mk in JOIN_CALLS:
         for args in (None, "", "1", "1, 2", "x=1", "1 2"):
@@ -1269,7 +1270,7 @@ def run(tier: str, seed: int) -> int:
         # the model needs 0.3 - 1.5 s of vm_compute per deep case (its string accumulators are quadratic): the direct
         # oracle sees every probe, the model a drawn share of them (all of the shallow ones)
         d = int(fam.rsplit(":d", 1)[1])
-        share = 1.0 if d <= 3 else (0.04 if quick else 0.2)
+        share = 1.0 if d <= 3 else (0.03 if quick else 0.2)
         inputs.append((fam, ls, rng.random() < share))
     inputs += call_matrix(rng, quick)
     for _ in range(n_gen_plain):
